@@ -37,7 +37,7 @@ Lossy(fmt, prim) == fmt \in JsonFmts /\ prim = "f64"
    anyway", alpha_deserializer.rs), so Alpha/PreAlpha around a *keyed* colour (struct, map) does not come
    back from such a stream on the pinned tree ("missing field `alpha`").  The statement's quantifier is
    JSON and RON; the outcome is recorded and left open here.  Set to TRUE to demand it. *)
-CompactKeyedAlphaRequired == FALSE
+CompactKeyedAlphaRequired == TRUE
 CompactFmts == {"compact", "compact_arr"}
 CompactOpen(fmt, wrap) == fmt = "compact" /\ wrap # "plain" /\ ~CompactKeyedAlphaRequired
 
